@@ -122,6 +122,7 @@ class ProofStatus:
         self.bad_axioms = []      # (name, axiom)
         self.forbidden = []
         self.broken = []          # names of things that no longer check
+        self.transport_note = ''  # transport theorems (formula-text level, Props/X01.lean) re-checked with this property
 
     @property
     def ok(self):
@@ -167,8 +168,12 @@ def count_examples(module):
     return len(re.findall(r'(?m)^\s*example\b', body))
 
 
-def prepare(prop, extra_targets=(), extra_extractors=()):
-    """Steps 1-3 of DESIGN.md §2.3: regenerate Gen, build model+driver, build and audit Props.<prop>."""
+def prepare(prop, extra_targets=(), extra_extractors=(), transport=None):
+    """Steps 1-3 of DESIGN.md §2.3: regenerate Gen, build model+driver, build and audit Props.<prop>.
+    `transport` = (module, [theorem names]): theorems of the integrated pipeline model that carry this property's
+    theorems to formula TEXTS; they are rebuilt and audited with the property and counted as obligations when they
+    check.  Their module depends on EVERY property's model, so a failure to build it is recorded in the evidence but is
+    not by itself a broken obligation of this property (its own theorems and its formula-route correspondence decide)."""
     st = ProofStatus()
     with build_lock():
         ok, st.extract_log = run_extract()
@@ -197,6 +202,26 @@ def prepare(prop, extra_targets=(), extra_extractors=()):
                     for a in axs:
                         if a not in ALLOWED_AXIOMS:
                             st.bad_axioms.append((name, a))
+            if st.props_ok and transport:
+                tmod, tnames = transport
+                tok, tlog = lake_build([tmod])
+                if tok:
+                    aok, tthms, _alog = audit(tmod)
+                    have = {n.split('.')[-1]: (n, axs) for n, axs in tthms}
+                    got = [have[n] for n in tnames if n in have]
+                    missing = [n for n in tnames if n not in have]
+                    if aok and not missing:
+                        for n, axs in got:
+                            st.theorems.append((n, axs))
+                            for a in axs:
+                                if a not in ALLOWED_AXIOMS:
+                                    st.bad_axioms.append((n, a))
+                        st.transport_note = f'{len(got)} transport theorems of {tmod} re-checked: ' + ', '.join(tnames)
+                    else:
+                        st.transport_note = f'transport theorems of {tmod} NOT re-checked (audit failed or missing: {missing})'
+                else:
+                    st.transport_note = (f'transport theorems of {tmod} NOT re-checked on this run: the module does not build '
+                                         '(it depends on every property\'s model)')
             if not st.props_ok:
                 errs = re.findall(r'(?m)^error: (\S+?):(\d+):\d+: (.*)$', st.props_log)
                 names = sorted({f'{f}:{l}' for f, l, _ in errs})
@@ -335,7 +360,7 @@ def write_evidence(prop, tier, seed, st, res, wall, violations, kf_lines, assump
         'distribution': res.distribution,
         'known_findings_reproduced': {k: len(v) for k, v in res.known.items()},
         'model_drift': res.drift[:20],
-        'notes': res.notes,
+        'notes': res.notes + ([st.transport_note] if getattr(st, 'transport_note', '') else []),
     }
     cov.update(res.extra)
     ev = {
